@@ -41,3 +41,23 @@ Proof.
   destruct (read_ty c fuel (TStruct nm fs false) s pos []) as [[v2 p2]|] eqn:E; cbn in R; [|contradiction]. injection R as <- <-.
   exact (read_consumes_size c fuel (TStruct nm fs false) Hfl n Hn s pos [] v q E).
 Qed.
+
+(* structures that mix plain members with runs of bit fields (Proofs/BitMixed.v), through the COMPILED reader *)
+From VF Require Import Proofs.BitsCorrect Proofs.BitRun Proofs.BitStruct Proofs.BitMixed.
+Theorem compiled_mixed_round_trip c : endian_ok (c_endian c) -> forall fuel nm segs p,
+  segs_ok c (Some 0) segs -> NoDup (map f_name (fields_of segs)) ->
+  Forall (plain_ok c (fun f => read_ty c fuel (f_ty f)) (fun f => write_ty c (f_ty f)) (fun f => has_tyc c (f_ty f))) segs ->
+  Forall (fun f => f_off f = None /\ cls' c fuel f) (fields_of segs) -> bsize c (fields_of segs) <= 9223372036854775807 ->
+  compile_plan c false (fields_of segs) = Ok p ->
+  forall vals sizes wpos bs,
+    typed_segs (fun f => has_tyc c (f_ty f)) vals segs [] -> map fst vals = map f_name (fields_of segs) ->
+    write_ty c (TStruct nm (fields_of segs) false) (VStruct vals sizes) wpos = Ok bs ->
+    forall pre rest, exists v',
+      read_compiled c fuel false (fields_of segs) (pre ++ bs ++ rest) (zlen pre) = Ok (v', zlen pre + zlen bs) /\ strip v' = strip (VStruct vals sizes).
+Proof.
+  intros He fuel nm segs p Hok Hnd Hpl Hcl Hb Hp vals sizes wpos bs HT Hn Hw pre rest.
+  destruct (mixed_struct_round_trip c He fuel nm segs Hok Hnd Hpl vals sizes wpos bs HT Hn Hw pre rest []) as [v' [Hr Hs]].
+  pose proof (compiled_is_interpreted c fuel nm (fields_of segs) p Hcl Hnd Hb Hp (pre ++ bs ++ rest) (zlen pre) [] (zlen_nonneg pre)) as R.
+  rewrite Hr in R. destruct (read_compiled c fuel false (fields_of segs) (pre ++ bs ++ rest) (zlen pre)) as [[v2 p2]|]; cbn in R; [|contradiction].
+  injection R as -> ->. eauto.
+Qed.
